@@ -37,7 +37,8 @@ class Latch {
    * Decrement the counter in a non-blocking manner.
    **/
   void count_down(uint32_t n = 1) noexcept {
-    if (impl_.intrusiveStatus().fetch_sub(n, std::memory_order_acq_rel) == 1) {
+    // The count reaches zero when the previous value equals n (not only when it equals 1).
+    if (impl_.intrusiveStatus().fetch_sub(n, std::memory_order_acq_rel) == static_cast<int>(n)) {
       impl_.notify(0);
     }
   }
